@@ -553,7 +553,7 @@ def _every_row(ctx: Ctx, rule: str, key: str, callee: str, mat: str, vec: str, s
             if e["func"] != key:
                 continue
             if e["kind"] == "loop-iter":
-                if isinstance(e["node"], (ast.For, ast.While)):
+                if isinstance(e["node"], (ast.For, ast.While, ast.GeneratorExp, ast.ListComp)):
                     stack.append(e["node"].lineno)
             elif e["kind"] in ("loop-body-end", "loop-continue", "loop-break") and stack:
                 stack.pop()
@@ -616,7 +616,7 @@ def _every_row(ctx: Ctx, rule: str, key: str, callee: str, mat: str, vec: str, s
                 continue
             if seg is None:
                 continue
-            if e["kind"] == "loop-iter" and e["func"] == key and isinstance(e["node"], (ast.For, ast.While)):
+            if e["kind"] == "loop-iter" and e["func"] == key and isinstance(e["node"], (ast.For, ast.While, ast.GeneratorExp, ast.ListComp)):
                 depth += 1
             ends = e["kind"] in ("loop-body-end", "loop-continue", "loop-break") and e["func"] == key
             if ends and depth > 0:
@@ -762,8 +762,27 @@ def rule_refines_order(ctx: Ctx, rule: str = "refines-order") -> None:
             ps = Sim(prog, fi, assume=status_assume(None, extra)).paths()
             outs = {outcome(p) for p in ps}
             construct = "refines: left %s, right %s" % ("unconstrained" if se else "constrained", "unconstrained" if oe else "constrained")
-            if len(ps) != 1:
+            if len(ps) != 1 and (se, oe) in want:
                 ctx.cannot_decide(rule, key, construct, "the case is not decided by lacks_constraints() alone (%d paths)" % len(ps))
+                continue
+            if len(ps) != 1:
+                # both sides constrained and more than one way through the function: every one of them has to end in
+                # the containment test of self in other - an answer given on some other ground (a pre-filter of the
+                # left side that comes out empty, a shortcut on shared variables) is not the semantic one
+                for p in ps:
+                    v = p.value
+                    okp = False
+                    whyp = "a path answers %s without the containment test (path %s)" % (outcome(p), p.label()[:80])
+                    if p.terminal == "return" and isinstance(v, tuple) and v[0] == "call" and v[1].endswith("verify_polytope_containment"):
+                        t2p = [e for e in p.calls("termlist_to_polytope")]
+                        if len(t2p) == 1 and t2p[0]["args"] == (("param", "self"), ("param", "other")):
+                            okp = True
+                        else:
+                            whyp = "matrices are not built by termlist_to_polytope(self, other): %s (path %s)" % ([show(e["result"], 3) for e in t2p], p.label()[:60])
+                    if okp:
+                        ctx.ok(rule, key, construct + " -> containment of self in other @ " + p.label()[:40])
+                    else:
+                        ctx.violation(rule, key, construct, whyp, where=fi.where)
                 continue
             p = ps[0]
             if (se, oe) in want:
@@ -1132,7 +1151,7 @@ def rule_polytope_roundtrip(ctx: Ctx, rule: str = "matrix-roundtrip") -> None:
             if arg[0] == "mcall" and arg[1] == "get_coefficient" and arg[2] == ("param", "term") and arg[3] and arg[3][0][0] == "iter" and arg[3][0][1] == ("param", "variable_list"):
                 if p.value[1][0] == apps[0]["recv"] and p.value[1][1] == ("attr", ("param", "term"), "constant"):
                     okc = True
-    (ctx.ok(rule, t2p.key, construct) if okc else ctx.violation(rule, t2p.key, construct, "unexpected shape", where=t2p.where))
+    (ctx.ok(rule, t2p.key, construct) if okc else ctx.cannot_decide(rule, t2p.key, construct, "neither followed by the interpreter nor of a shape this reading knows"))
     p2t = prog.func("PolyhedralTerm.polytope_to_term")
     ps = Sim(prog, p2t, loop_iters=(1,)).paths()
     construct = "polytope_to_term: variables[i] gets poly[i], constant passed through"
@@ -1153,7 +1172,7 @@ def rule_polytope_roundtrip(ctx: Ctx, rule: str = "matrix-roundtrip") -> None:
                     args = list(p.value[2]) + [x for _k, x in p.value[3]]
                     if len(args) == 2 and args[0] == tgt[1] and args[1] == ("param", "const"):
                         okc = True
-    (ctx.ok(rule, p2t.key, construct) if okc else ctx.violation(rule, p2t.key, construct, "unexpected shape", where=p2t.where))
+    (ctx.ok(rule, p2t.key, construct) if okc else ctx.cannot_decide(rule, p2t.key, construct, "neither followed by the interpreter nor of a shape this reading knows"))
     # ... for every entry: a path that stores nothing for a position may only do so because the entry is exactly zero
     construct = "polytope_to_term: no non-zero coefficient is left out"
     dropped = []
@@ -1196,7 +1215,7 @@ def rule_polytope_roundtrip(ctx: Ctx, rule: str = "matrix-roundtrip") -> None:
         rows = [x for x in walk(row) if isinstance(x, tuple) and x and x[0] == "sub" and x[1] == ("param", "matrix")]
         if not rows or cst[0] != "sub" or cst[1] != ("param", "vector") or rows[0][2] != cst[2] or vs != ("param", "variables"):
             okc = False
-    (ctx.ok(rule, b.key, construct) if okc else ctx.violation(rule, b.key, construct, "unexpected pairing", where=b.where))
+    (ctx.ok(rule, b.key, construct) if okc else ctx.cannot_decide(rule, b.key, construct, "neither followed by the interpreter nor of a pairing this reading knows"))
 
 
 # ------------------------------------------------------------ relax tail (C04 d)
